@@ -165,7 +165,8 @@ class C16(FloatSpec):
             'constant; distinct = distinct case hash. Hardening: samples held as float32 / int16 / int32 / int64, read-only '
             'or strided; batch shapes (incl. size-1 axes) for csd, psd (averaged, trailing samples), tone_conv (scalar and '
             'array frequency), rms, rms_rfft; positional spelling; arguments compared with a copy after every call; '
-            'level helpers on integers, arrays, lists, Series; signals of 2^16..2^17 (thorough 2^20) samples.')
+            'level helpers on integers, arrays, lists, Series; signals of 2^16..2^17 (thorough 2^20) samples. Targeted pass: the '
+            'same sample / spectrum array analysed twice, overwritten in place in between (assign, scale by 0.25).')
     exhaustive_note = {
         'quick': 'tones, no window: every length 8..40 x every bin 0..n/2',
         'thorough': 'tones, no window: every length 8..96 x every bin 0..n/2; hann: every length 24..64 x every bin',
@@ -377,7 +378,105 @@ class C16(FloatSpec):
         if f is None and not (s.dtype == keep.dtype and np.array_equal(s, keep)):
             f = (f'a spectrum helper modified the caller\'s samples ({c.get("dtype") or "float64"}, n={c["n"]}, '
                  f'window={c["window"]})')
+        if f is None:
+            f = self._reuse_laws(c, sv)
         return f
+
+    def _reuse_laws(self, c, sv):
+        """hardening item 6 (histories): THE SAME ndarray analysed twice with the same options, its contents overwritten
+        in place by the caller in between (`buf[:] = other`, `buf *= 0.25`) and nothing else analysed in between: the
+        second reading is the reading of the new contents (that of a fresh array holding them), and what was returned
+        for the first contents is left alone.  Signal buffers for csd / psd / phase / tone estimators / rms, spectrum
+        buffers for csd_to_signal / rms_rfft."""
+        from psiaudio import util
+        n, w, fs, avg = c['n'], c['window'], fs_of(c), c['avg']
+        if n < 2:
+            return None
+        dt = c.get('dtype')
+        f32 = dt == 'float32'
+        ST = F32_TOL if f32 else 1e-12
+        cc = dict(c, mem=None if c.get('mem') == 'readonly' else c.get('mem'))       # (the caller writes into it)
+        fq = (c['k'] if c['kind'] == 'tone' and c['k'] else max(1, n // 3)) * c['fs'] / n
+        big = max(float(np.max(np.abs(sv))), 1e-300)
+        other = sv[::-1] * 0.5 + 0.25 * big * np.cos(0.9 * np.arange(n))
+        if dt in INT_AMP:
+            other = np.round(other)
+        elif f32:
+            other = other.astype(np.float32).astype(float)
+        DT = F32_DETREND if f32 else 1e-12
+        readers = [
+            ('csd(window, detrend=None)', lambda b: util.csd(b, window=w, detrend=None), ST),
+            ("csd(window) [detrend='linear']", lambda b: util.csd(b, window=w), DT),
+            ('psd(fs, window, detrend=None)', lambda b: util.psd(b, fs, window=w, detrend=None), ST),
+            ('tone_conv(fs, f, window, detrend=None)', lambda b: util.tone_conv(b, fs, fq, window=w, detrend=None), ST),
+            ('tone_power_conv(fs, f, window, detrend=None)',
+             lambda b: util.tone_power_conv(b, fs, fq, window=w, detrend=None), ST),
+            ('tone_power_conv(fs, f, window)', lambda b: util.tone_power_conv(b, fs, fq, window=w), DT),
+            ('rms', lambda b: util.rms(b), F32_RMS if f32 else 1e-12),
+        ]
+        if n >= avg > 1:
+            readers.append((f'psd(fs, window, waveform_averages={avg}, detrend=None)',
+                            lambda b: util.psd(b, fs, window=w, waveform_averages=avg, detrend=None), ST))
+        # angles: where the magnitude is well conditioned (a bin at 1e-3 of the largest one turns by ST / 1e-3)
+        def well(b):
+            m = np.abs(util.csd(np.array(b, dtype=float), window=w, detrend=None))
+            return m > 1e-3 * max(float(m.max()), 1e-300)
+        angle_readers = [
+            ('phase(fs, window, unwrap=False)', lambda b: np.asarray(util.phase(b, fs, window=w, unwrap=False))),
+        ]
+        for how in ('assign', 'scale'):
+            if how == 'scale' and dt in INT_AMP:
+                continue                        # (an integer buffer cannot hold a quarter of its samples)
+            for name, fn, tol in readers + [(a, b, None) for a, b in angle_readers]:
+                buf = as_input(cc, sv)
+                r1 = fn(buf)
+                k1 = np.array(r1, copy=True)
+                if how == 'assign':
+                    buf[...] = other.astype(buf.dtype)
+                else:
+                    buf *= buf.dtype.type(0.25)
+                r2 = fn(buf)                                                # the same object, new contents
+                fresh = as_input(cc, np.array(buf, dtype=float))            # a new array holding the new contents
+                want = fn(fresh)
+                if not np.array_equal(np.asarray(r1), k1, equal_nan=True):
+                    return (f'{name}: the result returned for the first contents of a buffer changed when the caller '
+                            f'overwrote the buffer ({how}) and analysed it again (n={n}, window={w}, {dt or "float64"})')
+                r2, want = np.asarray(r2), np.asarray(want)
+                if tol is None:
+                    sel = well(buf)
+                    d = np.abs(wrap(np.where(sel, r2 - want, 0.0))) if r2.shape == want.shape else None
+                    ok = d is not None and float(np.max(d, initial=0.0)) <= 1e3 * ST
+                else:
+                    scale = max(float(np.max(np.abs(want), initial=0.0)), 1e-300)
+                    ok = r2.shape == want.shape and bool(np.all(np.abs(r2 - want) <= tol * scale))
+                if not ok:
+                    stale = r2.shape == k1.shape and np.allclose(r2, k1, rtol=1e-9, atol=0)
+                    return (f'{name}: the same array analysed twice, overwritten in place ({how}) in between: the second '
+                            f'reading differs from the reading of a fresh array with the new contents'
+                            f'{" and equals the FIRST reading" if stale else ""} (n={n}, window={w}, {dt or "float64"}, '
+                            f'mem={cc.get("mem")})')
+        # spectrum buffers
+        if n % 2 == 0:
+            z1 = util.csd(sv, window=w, detrend=None)
+            z2 = util.csd(other, window=w, detrend=None)
+            for name, fn in (('csd_to_signal', util.csd_to_signal), ('rms_rfft', util.rms_rfft)):
+                for how in ('assign', 'scale'):
+                    zbuf = np.array(z1, copy=True)
+                    r1 = fn(zbuf)
+                    k1 = np.array(r1, copy=True)
+                    if how == 'assign':
+                        zbuf[...] = z2
+                    else:
+                        zbuf *= 0.25
+                    r2 = np.asarray(fn(zbuf))
+                    want = np.asarray(fn(np.array(zbuf, copy=True)))
+                    scale = max(float(np.max(np.abs(want), initial=0.0)), 1e-300)
+                    if not np.array_equal(np.asarray(r1), k1) or r2.shape != want.shape \
+                            or not np.all(np.abs(r2 - want) <= 1e-12 * scale):
+                        return (f'{name}: the same spectrum array converted twice, overwritten in place ({how}) in '
+                                f'between: second result differs from that of a fresh array with the new contents, or '
+                                f'the first result changed (n={n}, window={w})')
+        return None
 
     def _signal_laws(self, c, sv, s):
         from psiaudio import util
